@@ -8,6 +8,7 @@ import (
 	"encoding/hex"
 	"encoding/json"
 	"fmt"
+	"io"
 	"io/fs"
 	"strings"
 
@@ -83,6 +84,7 @@ type C05Plan struct {
 	Segs   []int        `json:"segs,omitempty"`
 	RSeed  uint64       `json:"rseed,omitempty"`  // dec: seed of the reference writer's random values
 	Corpus int          `json:"corpus,omitempty"` // corpus: entry index
+	Inter  bool         `json:"inter,omitempty"`  // dec: a second reference-written file is decrypted in between the reads of the first (two live readers in one process)
 	Outs   int          `json:"outs,omitempty"`   // dec/corpus: this many non-matching identities (X25519, ssh-ed25519, ssh-rsa in turn) are listed before the matching one
 	Reuse  int          `json:"reuse,omitempty"`  // enc: the recipient objects (one per distinct key) already encrypted this many files before the checked one
 }
@@ -109,7 +111,7 @@ func (C05) Meta() core.Meta {
 		Real:        []string{"filippo.io/age Encrypt/Decrypt", "all four recipient/identity types", "armor", "internal/stream", "internal/format"},
 		Stub:        []string{"crypto/rand.Reader (tape)", "destination recorder", "reference encoder/decoder (sim/ref)"},
 		FaultKinds:  []string{},
-		Probes:      []string{"probe.enc_x25519", "probe.enc_scrypt", "probe.enc_ssh_ed25519", "probe.enc_ssh_rsa", "probe.enc_grease", "probe.enc_reused_recipient_objects", "probe.enc_armor", "probe.dec_ref_written", "probe.corpus_entry", "probe.cctv_vector", "probe.big_257_chunks", "probe.len_on_chunk_boundary", "probe.body_multiple_of_48"},
+		Probes:      []string{"probe.enc_x25519", "probe.enc_scrypt", "probe.enc_ssh_ed25519", "probe.enc_ssh_rsa", "probe.enc_grease", "probe.enc_reused_recipient_objects", "probe.two_files_read_alternately", "probe.enc_armor", "probe.dec_ref_written", "probe.corpus_entry", "probe.cctv_vector", "probe.big_257_chunks", "probe.len_on_chunk_boundary", "probe.body_multiple_of_48"},
 	}
 }
 
@@ -173,6 +175,9 @@ func (C05) Generate(r *core.RNG, tier string, idx uint64) interface{} {
 	}
 	if p.Mode == "dec" && r.Chance(1, 2) {
 		p.Outs = r.Range(1, 3)
+	}
+	if p.Mode == "dec" && r.Chance(1, 4) {
+		p.Inter = true
 	}
 	return p
 }
@@ -368,6 +373,46 @@ func (e C05) execDec(p *C05Plan, c *core.Ctx) *core.Verdict {
 	img := RefWrite(spec, p.RSeed)
 	P := spec.Plain()
 	c.Stats.Inc("probe.dec_ref_written")
+	if p.Inter && !spec.Armor {
+		// two files open at once, read alternately in small and large pieces
+		other := spec
+		other.PSeed, other.PLen = spec.PSeed+1, spec.PLen/2+33
+		imgB := RefWrite(other, p.RSeed+1)
+		k := spec.Keys()[0]
+		rA, errA := age.Decrypt(bytes.NewReader(img), world.Identity(k))
+		rB, errB := age.Decrypt(bytes.NewReader(imgB), world.Identity(k))
+		if errA != nil || errB != nil {
+			return core.Fail("C05.decrypt_ref_file", "reference-written files for %s are not opened: %v / %v", spec.Skeleton(), errA, errB)
+		}
+		var gotA, gotB []byte
+		small := make([]byte, 16)
+		for done := 0; done < 2; {
+			done = 0
+			n, err := rA.Read(small)
+			gotA = append(gotA, small[:n]...)
+			if err != nil {
+				done++
+			}
+			big := make([]byte, 70000)
+			n, err = rB.Read(big)
+			gotB = append(gotB, big[:n]...)
+			if err != nil {
+				done++
+			}
+			if len(gotA) > len(P)+100 || len(gotB) > len(P)+100 {
+				break
+			}
+		}
+		restA, _ := io.ReadAll(rA)
+		gotA = append(gotA, restA...)
+		restB, _ := io.ReadAll(rB)
+		gotB = append(gotB, restB...)
+		c.Stats.Inc("probe.two_files_read_alternately")
+		c.Stats.Eval(fmt.Sprintf("dec-inter|%s|r%d", spec.Skeleton(), p.RSeed), true)
+		if !bytes.Equal(gotA, P) || !bytes.Equal(gotB, other.Plain()) {
+			return core.Fail("C05.decrypt_ref_file", "two reference-written files for %s read alternately in one process: file A gives %d bytes (first difference at %d of %d), file B %d bytes (first difference at %d of %d)", spec.Skeleton(), len(gotA), firstDiff(gotA, P), len(P), len(gotB), firstDiff(gotB, other.Plain()), len(other.Plain()))
+		}
+	}
 	for _, k := range spec.Keys() {
 		c.Stats.Eval(fmt.Sprintf("dec|%s|r%d|%s", spec.Skeleton(), p.RSeed, k), true)
 		src := seam.NewSource(img, seam.Delivery{Mode: "whole"}, nil, nil)
